@@ -149,7 +149,7 @@ func (s *scanner) walkStmt(st ast.Stmt) {
 			s.walkStmt(x.Init)
 		}
 		s.walkExpr(x.Cond)
-		s.emit("if %s {", expr(s.fset, x.Cond))
+		s.emit("if {")
 		s.depth++
 		s.walkBlock(x.Body)
 		s.depth--
@@ -237,18 +237,38 @@ func (s *scanner) walkStmt(st ast.Stmt) {
 	}
 }
 
-// prune removes control blocks that contain no synchronisation operation at all.
+// prune removes control blocks that contain no synchronisation operation at all (only plain
+// return/continue/break or nothing): business logic that does not synchronise is not part of the listing.
 func prune(lines []string) []string {
+	plain := func(t string) bool { return t == "return" || t == "continue" || t == "break" || t == "goto" || t == "fallthrough" }
 	for {
 		changed := false
 		out := []string{}
 		for i := 0; i < len(lines); i++ {
 			t := strings.TrimSpace(lines[i])
-			if strings.HasSuffix(t, "{") && i+1 < len(lines) && strings.TrimSpace(lines[i+1]) == "}" &&
-				!strings.HasPrefix(t, "}") {
-				i++
-				changed = true
-				continue
+			if strings.HasSuffix(t, "{") && !strings.HasPrefix(t, "}") {
+				// find the matching close at the same indentation, allowing "} else {" continuations
+				ind := len(lines[i]) - len(strings.TrimLeft(lines[i], " "))
+				j := i + 1
+				onlyPlain := true
+				for ; j < len(lines); j++ {
+					tj := strings.TrimSpace(lines[j])
+					indj := len(lines[j]) - len(strings.TrimLeft(lines[j], " "))
+					if indj == ind && tj == "}" {
+						break
+					}
+					if indj == ind && tj == "} else {" {
+						continue
+					}
+					if !plain(tj) {
+						onlyPlain = false
+					}
+				}
+				if onlyPlain && j < len(lines) {
+					i = j
+					changed = true
+					continue
+				}
 			}
 			out = append(out, lines[i])
 		}
